@@ -7,6 +7,7 @@ import (
 	"github.com/platinummonkey/go-concurrency-limits/limit"
 
 	"verif/mc"
+	"verif/vrt"
 )
 
 // C16 — change notifications are complete and agree with the reported estimate. Mode S over
@@ -262,4 +263,78 @@ func runC16(c *Ctx) {
 	for _, k := range []string{"settable", "fixed", "traced(settable)", "traced(script)", "windowed(settable)", "traced(windowed(script))"} {
 		c.runBFS(c16SimpleModel(k), mc.BFSOptions{MaxDepth: c.Pick(7, 9), MaxStates: 400000})
 	}
+	c16ConcurrentAll(c)
+}
+
+// ---- concurrent part: notifications delivered by racing updates must not go stale ----
+
+func c16Concurrent(name string, mk func() core.Limit, ops []func(l core.Limit), labels []string) *mc.Scenario {
+	type pair struct{ a, b int }
+	var pairs []pair
+	for i := range ops {
+		for j := i; j < len(ops); j++ {
+			pairs = append(pairs, pair{i, j})
+		}
+	}
+	return &mc.Scenario{
+		Name:   "C16/concurrent/" + name,
+		Params: fmt.Sprintf("two threads apply one of %v each to a shared instance; one listener registered before, one registered concurrently", labels),
+		Body: func(x *mc.Exec) {
+			l := mk()
+			p := pairs[vrt.Choose(len(pairs))]
+			before := l.EstimatedLimit()
+			early, late := &recSub{}, &recSub{}
+			// a listener is foreign code: it may be preempted on entry (a schedule point), which is what
+			// exposes notifications delivered outside the limit's lock
+			l.NotifyOnChange(func(v int) { vrt.Yield(); early.calls++; early.last = v })
+			ta := vrt.Go(func() { ops[p.a](l) })
+			tb := vrt.Go(func() { ops[p.b](l) })
+			tc := vrt.Go(func() { l.NotifyOnChange(func(v int) { vrt.Yield(); late.calls++; late.last = v }) })
+			vrt.Join(ta, tb, tc)
+			after := l.EstimatedLimit()
+			x.Observe("%s || %s: %d -> %d early=%v late=%v", labels[p.a], labels[p.b], before, after, *early, *late)
+			x.MarkConflict()
+			if after != before && early.calls == 0 {
+				x.Fail(name+"/change-not-notified", "%s || %s changed the estimate %d -> %d but the listener registered beforehand was never called", labels[p.a], labels[p.b], before, after)
+			}
+			for i, s := range []*recSub{early, late} {
+				if s.calls > 0 && s.last != after {
+					x.Fail(name+"/last-delivered-differs", "%s || %s: listener %d last received %d but EstimatedLimit() reports %d once both calls returned", labels[p.a], labels[p.b], i, s.last, after)
+				}
+			}
+		},
+	}
+}
+
+func c16ConcurrentAll(c *Ctx) {
+	pb := c.Pick(2, 3)
+	smp := func(rtt int64, infl int, drop bool) func(core.Limit) {
+		return func(l core.Limit) { l.OnSample(0, rtt, infl, drop) }
+	}
+	ops := []func(core.Limit){smp(baseRTT, 40, false), smp(3*baseRTT, 40, false), smp(baseRTT, 40, true)}
+	labels := []string{"OnSample(healthy)", "OnSample(slow)", "OnSample(drop)"}
+	for _, cfg := range limGrid(0) {
+		if cfg.initial > 100 {
+			continue
+		}
+		for _, w := range []string{"", "traced"} {
+			cfg := cfg
+			cfg.wrapper = w
+			name := cfg.algo + wrapTag(w)
+			c.Explore(c16Concurrent(name, func() core.Limit {
+				li := cfg.build(nil)
+				// warm: a baseline exists, so that the racing samples reach the update branch
+				li.top.OnSample(0, baseRTT, 40, false)
+				li.top.OnSample(0, baseRTT, 40, false)
+				return li.top
+			}, ops, labels), mc.Options{PreemptBound: pb, DevBound: 0})
+		}
+	}
+	setOps := []func(core.Limit){
+		func(l core.Limit) { l.(*limit.SettableLimit).SetLimit(5) },
+		func(l core.Limit) { l.(*limit.SettableLimit).SetLimit(7) },
+		smp(baseRTT, 4, false),
+	}
+	c.Explore(c16Concurrent("settable", func() core.Limit { return limit.NewSettableLimit("s", 3, nil) }, setOps,
+		[]string{"SetLimit(5)", "SetLimit(7)", "OnSample"}), mc.Options{PreemptBound: pb})
 }
